@@ -164,6 +164,8 @@ def run(rep: Report, tier: str) -> None:
         if cn not in N or fl not in N[cn].fields:
             rep.note(f"R12.1 exemption refers to a field that no longer exists: {cn}.{fl}")
 
+    traversal_on_every_path(P, rep, "R12.1")
+
     # ---- R12.2 -----------------------------------------------------------------------------------------
     vs = P.func(f"{DAG}.visit_Start")
     sa_ = P.func(f"{DAG}.sort_ast")
@@ -512,3 +514,97 @@ def operand_mutations(P: Program, rep: Report, rule: str, module_prefixes: Tuple
             if f"{r[0]}/{r[1]}" not in seen_ref:
                 rep.note(f"{rule} reference site no longer present: {r[0]}/{r[1]}")
     return nmeth
+
+
+# guards under which a handler of the dependency analysis legitimately does not descend into a field (normalised test text -> reason)
+TRAVERSAL_GUARDS: Dict[Tuple[str, str, str], str] = {
+    ("visit_BinOp", "right", "node.op == AS or node.op == TO"): "`X as a` / `rename a to b`: the right side is a NAME being introduced, not an expression that reads data",
+    ("visit_RegularAggregation", "children", "node.op in [KEEP, DROP, RENAME]"): "keep / drop / rename list component names of the clause dataset; there is no expression to analyse",
+}
+
+
+def _assume_present(fn: ast.AST, param: str, fld: str) -> ast.AST:
+    import copy
+    root = copy.deepcopy(fn)
+    want = f"{param}.{fld}"
+
+    def polarity(t: ast.AST) -> Optional[bool]:
+        """True: the test holds when the field is present; False: when it is absent; None: not a presence test of the field"""
+        if isinstance(t, ast.UnaryOp) and isinstance(t.op, ast.Not):
+            p_ = polarity(t.operand)
+            return None if p_ is None else not p_
+        if src(t) == want:
+            return True
+        if isinstance(t, ast.Compare) and len(t.ops) == 1 and src(t.left) == want and isinstance(t.comparators[0], ast.Constant) and t.comparators[0].value is None:
+            return isinstance(t.ops[0], ast.IsNot) if isinstance(t.ops[0], (ast.Is, ast.IsNot)) else None
+        return None
+
+    class T(ast.NodeTransformer):
+        def visit_If(self, node: ast.If):  # noqa: N802
+            self.generic_visit(node)
+            pol = polarity(node.test)
+            if pol is None:
+                return node
+            taken = node.body if pol else node.orelse
+            return taken or [ast.copy_location(ast.Pass(), node)]
+    return T().visit(root)
+
+
+def traversal_on_every_path(P: Program, rep: Report, rule: str, only_nodes: Optional[Set[str]] = None) -> None:
+    """Path form of R12.1: a handler of the dependency analysis that descends into an operand-bearing field of its node does so on EVERY
+    path through the handler - except paths that test the field itself (absent / empty / its elements' kind) or pass one of the
+    reviewed guards.  A context-dependent early return (`if self.is_from_regular_aggregation: return`) drops the dependency edges of
+    whatever the skipped sub-expression reads: a scalar produced by another statement is then not an input of this one, the statements
+    are not ordered, and its table is released before the reader runs."""
+    dag = P.cls(DAG)
+    N = e7.node_classes(P)
+    n = 0
+    used_guards: Set[Tuple[str, str, str]] = set()
+    for name, nc in sorted(N.items()):
+        if name == "AST" or not nc.node_fields or (only_nodes is not None and name not in only_nodes):
+            continue
+        m = e7.visitor_method(P, dag, name)
+        if m is None or m.cls is None or not m.cls.qualname.startswith(DAGMOD):
+            continue
+        param = [x for x in m.params if x != "self"][0]
+        vis = e7.visited_fields(P, m, param)
+        for fld in sorted(vis & set(nc.node_fields)):
+            # the handler specialised under "the field is present": `if node.f is None: A else: B` -> B, `if node.f: A` -> A, ...
+            g = CFG(_assume_present(m.node, param, fld), for_nonempty=True)
+            elem: Set[str] = set()
+            for x in ast.walk(m.node):
+                if isinstance(x, (ast.For, ast.comprehension)) and any(isinstance(y, ast.Attribute) and y.attr == fld and isinstance(y.value, ast.Name) and y.value.id == param
+                                                                         for y in ast.walk(x.iter)):
+                    elem |= {t.id for t in ast.walk(x.target) if isinstance(t, ast.Name)}
+
+            def mentions(e: ast.AST, fld=fld, elem=elem) -> bool:
+                return any((isinstance(y, ast.Attribute) and y.attr == fld and isinstance(y.value, ast.Name) and y.value.id == param)
+                           or (isinstance(y, ast.Name) and y.id in elem) for y in ast.walk(e))
+            vnodes, gnodes = [], []
+            for nd in g.nodes:
+                if nd.stmt is None:
+                    continue
+                for e in g.own_exprs(nd):
+                    for c in ast.walk(e):
+                        if isinstance(c, ast.Call) and isinstance(c.func, ast.Attribute) and (c.func.attr == "visit" or c.func.attr.startswith("visit_") or c.func.attr == "generic_visit"):
+                            if any(mentions(a) for a in c.args) or (c.func.attr != "visit" and any(isinstance(a, ast.Name) and a.id == param for a in c.args)):
+                                vnodes.append(nd)
+                if nd.kind in ("test", "loop"):
+                    if any(mentions(e) for e in g.own_exprs(nd)):
+                        gnodes.append(nd)
+                    elif nd.kind == "test" and isinstance(nd.stmt, ast.If):
+                        k = (m.name, fld, src(nd.stmt.test))
+                        if k in TRAVERSAL_GUARDS:
+                            gnodes.append(nd)
+                            used_guards.add(k)
+            n += 1
+            rep.instance(rule, f"every-path/{name}.{fld}", nontrivial=True, sample={"handler": m.qualname, "field": fld, "visit sites": sorted({v.lineno for v in vnodes})} if n <= 3 else None)
+            p = g.path_avoiding(g.entry, lambda x: x is g.exit, lambda x: x in vnodes or x in gnodes, follow_exc=False)
+            if p is not None:
+                rep.add(Finding(rule, f"{rule}/every-path/{name}.{fld}", m.module.rel, m.node.lineno, m.qualname,
+                                f"{m.qualname} descends into {name}.{fld} on some paths only: a path that never tests the field returns without visiting it, so datasets and "
+                                f"script-level values read inside that sub-expression create no dependency edge for the statement (it can run before its producer, or after the "
+                                f"producer's table was released)", describe_path(p)))
+    for k in used_guards:
+        rep.exemption(rule, "/".join(k), TRAVERSAL_GUARDS[k])
+    rep.floor(f"{rule} handler fields", n, 3 if only_nodes else 12)
